@@ -400,6 +400,32 @@ def boundary_grid():
                 for d in (-2, -1, 0, 1, 2, 30):
                     out.append((ev, '%.2f' % (base * 1.2 + d / 100.0), g))
                     out.append((ev.lower(), '%.2f' % (base * 1.2 + d / 100.0), g))
+    # ... and for EVERY spelling of the field codes the vocabulary admits (weights, units, the white space the patterns allow,
+    # letter case): one representative per shape of the throws / jumps patterns
+    from pyvc import shapes as SH
+    from pyvc import sstr as S
+    c = codes()
+    rnd = random.Random(5)
+    for pat in (c.PAT_THROWS, c.PAT_JUMPS):
+        for shape in SH.shapes(pat, 1):
+            for variant in range(2):
+                chars = []
+                for cell in shape:
+                    if isinstance(cell, str):
+                        chars.append(cell)
+                    elif cell.r == S.WSCC.r:
+                        chars.append(' ' if variant == 0 else rnd.choice('\t\xa0 '))
+                    elif cell.r == S.DIGITS.r:
+                        chars.append(rnd.choice('1245'))
+                    else:
+                        opts = [chr(a) for a, b in cell.r for a in range(a, b + 1)][:6]
+                        chars.append(opts[variant % len(opts)])
+                code = ''.join(chars)
+                base = re.match(r'[A-Za-z]*', code).group(0).upper()
+                if base in T['all'] and c.PAT_FIELD.match(code):
+                    for d in (-1, 1, 30, 5000):
+                        out.append((code, '%.2f' % (T['all'][base] * 1.2 + d / 100.0), 'all'))
+                        out.append((code, '%.2f' % (T['f'][base] * 1.2 + d / 100.0), 'f'))
     return out
 
 
@@ -452,7 +478,8 @@ def main(tier, seed):
     J = []
     # one discipline on each side of every distance threshold of the cascade (200, 400, 800), the three with the h:m:s re-reading, road, field
     # codes in their three spellings (base, lower case, weight-specific), multi
-    discs = DISCIPLINES if tier != 'quick' else ['100', '300', '400', '600', '800', '1500', '3000', '5000', 'MAR', 'XC', 'HJ', 'JT', 'CT', 'jt', 'JT800', 'DEC']
+    discs = (DISCIPLINES + ['DT 1.5K', 'SP 7.26 kg']) if tier != 'quick' else ['100', '300', '400', '600', '800', '1500', '3000', '5000', 'MAR', 'XC', 'HJ', 'JT', 'CT', 'jt',
+                                                                                   'JT800', 'DT 1.5K', 'DEC']
     for disc in discs:
         for shape in shapes:
             J.append(('sym', (disc, shape, None, 'all')))
